@@ -47,6 +47,7 @@ def main(inp, outp):
             step["attached"] = obj._REGISTRY is pint.application_registry.get()
             step["canon"] = H.jsonable(H.canon_obj(obj))
             step["order"] = list(obj._units._d)
+            step["missing"] = [n for n in obj._units._d if n not in app._units]
             if job.get("convert"):
                 step["base"] = H.base_probe(obj)
         step["new"] = sorted(set(app._units) - before)
